@@ -941,13 +941,17 @@ class _KeyHandle:
         return bytes([2, self.tag]) + bytes(31)     # a distinct 33-byte handle per key record
 
 
-def _branch_path(nrec, change):
+def _branch_path(nrec, change, hist=False):
     d = mods()
     names = "ABD"[:nrec]
     accts = [SI.var(f"acct{i}", 0, (1 << 31) - 2) for i in range(nrec)]
     off = SI.var("offset", 0, (1 << 31) - 1)
     recs = [{"xfp": _K[k][0], "path": _K[k][1], "xpub_parent": _K[k][2], "account_index": 0} for i, k in enumerate(names)]
-    wit = lambda env: {"names": names, "accts": [env[f"acct{i}"] for i in range(nrec)], "offset": env["offset"], "change": change}  # noqa
+    def wit(env):
+        w = {"names": names, "accts": [env[f"acct{i}"] for i in range(nrec)], "offset": env["offset"], "change": change}
+        if hist:
+            w["hist"] = {"accts": [env[f"h.acct{i}"] for i in range(nrec)], "offset": env["h.offset"]}
+        return w
     obj = d.P2WSHSortedMulti(1, recs, sort_key_records=False)
     # the constructor renders the account indexes into the descriptor text (strings are concrete here); get_address reads only
     # key_records, so the state is completed directly: an arbitrary account index per record
@@ -958,6 +962,27 @@ def _branch_path(nrec, change):
     real_parse = d.HDPublicKey.parse
     d.HDPublicKey.parse = staticmethod(lambda x, *a, **k: _KeyHandle(tags[x], [], log))
     real_int = None
+    if hist:
+        # history: addresses of ANOTHER wallet were derived earlier in the same process.  Its key records carry the same key
+        # origins (fingerprint + path: nothing ties a fingerprint to an xpub, placeholder fingerprints are common) but other
+        # xpubs, arbitrary account indexes and offset; whatever the library remembers must not reach the wallet under test
+        other = [_K[k][2] for k in "CIS"[:nrec]]
+        recs0 = [{"xfp": _K[k][0], "path": _K[k][1], "xpub_parent": other[i], "account_index": 0} for i, k in enumerate(names)]
+        log0 = []
+        d.HDPublicKey.parse = real_parse
+        obj0 = d.P2WSHSortedMulti(1, recs0, sort_key_records=False)
+        d.HDPublicKey.parse = staticmethod(lambda x, *a, **k: _KeyHandle(100 + other.index(x) if x in other else tags[x], [], log0 if x in other else log))
+        for i, kr in enumerate(obj0.key_records):
+            kr["account_index"] = SI.var(f"h.acct{i}", 0, (1 << 31) - 2)
+        off0 = SI.var("h.offset", 0, (1 << 31) - 1)
+        try:
+            for ch in (False, True):
+                obj0.get_address(offset=off0, is_change=ch)
+        except core.Unsupported:
+            raise
+        except Exception:
+            pass
+        del log[:]
     try:
         # `assert type(offset) is int`: the shimmed type() answers int for a symbolic int
         try:
@@ -976,8 +1001,8 @@ def _branch_path(nrec, change):
     return "ok"
 
 
-def ob_branch():
-    runs = [sym_run(lambda: _branch_path(n, ch), mode="int") for n in (1, 3) for ch in (False, True)]
+def ob_branch(hist=False):
+    runs = [sym_run(lambda: _branch_path(n, ch, hist), mode="int", max_violations=6) for n in ((1, 3) if not hist else (1, 2)) for ch in (False, True)]
     m = merge_runs(runs)
     m["sample"] = {"key records": "1 and 3, account_index of each symbolic in [0, 2^31-2]", "offset": "symbolic in [0, 2^31)", "branch": "receive / change",
                    "stub": "HDPublicKey.parse returns a handle that records the child indexes (BIP32 derivation is C08's subject)"}
@@ -990,6 +1015,15 @@ def replay_branch(w):
     recs = [{"xfp": _K[k][0], "path": _K[k][1], "xpub_parent": _K[k][2], "account_index": a} for k, a in zip(names, w["accts"])]
     obj = nat.P2WSHSortedMulti(1, recs, sort_key_records=False)
     out = []
+    if w.get("hist"):
+        other = [_K[k][2] for k in "CIS"[:len(names)]]
+        recs0 = [{"xfp": _K[k][0], "path": _K[k][1], "xpub_parent": other[i], "account_index": a} for i, (k, a) in enumerate(zip(names, w["hist"]["accts"]))]
+        try:
+            obj0 = nat.P2WSHSortedMulti(1, recs0, sort_key_records=False)
+            for ch in (False, True):
+                obj0.get_address(offset=w["hist"]["offset"], is_change=ch)
+        except Exception:
+            pass
     for off in sorted({w["offset"], 0, 1}):
         addr = {}
         for change in (False, True):
@@ -1110,6 +1144,7 @@ def obligations(tier):
         obs.append(Ob("O2-substitution", ob_substitution, {"wname": name, "where": "checksum", "positions": tuple(range(8))},
                       replay="substitution"))
     obs.append(Ob("O3-branch-selection", ob_branch, replay="branch"))
+    obs.append(Ob("O3-branch-selection-history", ob_branch, {"hist": True}, replay="branch", budget_s=900))
     for name in ("1of1", "1of2", "2of3", "slip132", "2of3-acct7", "2of3-same-xfp") if q else ("1of1", "1of2", "2of3", "1of4", "slip132", "2of3-acct7", "2of3-same-xfp"):
         obs.append(Ob("O3-wallet", ob_wallet, {"name": name}))
     for name in (("1of1",) if q else ("1of1", "1of2")):
